@@ -97,3 +97,45 @@ def run(ctx, rep, rule):
 def is_storage_layer(b):
     tr = (b.impl or {}).get("trait", "") or ""
     return tr.endswith(("backend::WriteBackend", "backend::ReadBackend"))
+
+
+# ---- errors of streamed repository reads are not filtered away ---------------------------------------------
+ITER_DROP = re.compile(r"^std::iter::Iterator::(flatten|flat_map)$|ParallelIterator::(flatten|flatten_iter)$")
+OK_FN = re.compile(r"^std::result::Result::<T, E>::ok$")
+ITER_EXC = {
+    "repofile::snapshotfile::SnapshotFile::iter_all_from_backend": "documented warn-and-skip listing of all snapshots (each skipped file is logged); the id-addressed readers propagate",
+    "backend::cache::Cache::list_with_size": "directory-walk errors of the local cache (best effort)",
+    "commands::restore::collect_and_prepare::{closure#0}": "directory-walk errors of the restore destination, not repository reads",
+    "repository::warm_up::read_progress_output": "lines of a warm-up helper's output",
+}
+
+
+def run_iter(ctx, rep, rule):
+    """an iterator whose items are RusticResult values must not be flattened / filtered with Result::ok: that silently
+    drops the error of a failed (e.g. tampered) read"""
+    prog = ctx.prog
+    rep.rule(rule, "no iterator of RusticResult items is flattened or filtered with Result::ok (read errors must surface)")
+    n = 0
+    for b in prog.by_crate["rustic_core"]:
+        for bb, t in b.calls():
+            if "callee" not in t:
+                continue
+            cd = callee_decl(t)
+            ga = " ".join(t.get("gargs") or [])
+            hit = None
+            if ITER_DROP.search(cd) and "Result<" in ga and "RusticError" in ga:
+                hit = cd.rsplit("::", 1)[-1]
+            else:
+                for a in t["args"]:
+                    if a[0] == "k" and "fn" in a[1]:
+                        p = (a[1]["fn"].get("resolved") or {}).get("path") or a[1]["fn"]["callee"]
+                        if OK_FN.search(p) and "RusticError" in ga + " ".join(a[1]["fn"].get("gargs") or []):
+                            hit = cd.rsplit("::", 1)[-1] + "(Result::ok)"
+            if hit:
+                n += 1
+                k = fn_key(b)
+                why = ITER_EXC.get(k)
+                rep.check(rule, f"{k}/{hit}", why is not None, where=where(b, bb),
+                          what=f"{k}: {hit} over RusticResult items [exception: {why}]" if why else
+                               f"{k}: {hit} applied to an iterator of RusticResult items silently DROPS read errors (a tampered or unreadable file is skipped instead of reported)")
+    rep.count(f"{rule}: adaptor sites over RusticResult items", n)
